@@ -193,6 +193,22 @@ func etcdEffects(m *Module, fn *ssa.Function, seen map[*ssa.Function]bool) map[s
 			})
 		}
 		if !classified {
+			// the key as a flattened expression (Sprintf, path.Join or plain concatenation): classify by
+			// its leading literal
+			shape := mergeLits(strShape(m, keyArg, 2))
+			if len(shape) > 0 && shape[0].Var == nil {
+				for pre, fams := range etcdPrefixFamilies {
+					lit := strings.TrimSuffix(strings.TrimSuffix(pre, "/"), "%s")
+					if strings.HasPrefix(shape[0].Lit, lit) {
+						classified = true
+						for _, f := range fams {
+							out[f] = true
+						}
+					}
+				}
+			}
+		}
+		if !classified {
 			// deleteConsumerOffsets deletes keys listed under the consumers prefix
 			if strings.Contains(funcName(fn), "deleteConsumerOffsets") {
 				out["consumer-offsets"] = true
